@@ -111,7 +111,56 @@ func ruleWrapperDeferred(c *Ctx, rule string) {
 func ruleLockOrder(c *Ctx, rule string) {
 	la := c.locks()
 	adj := map[string]map[string]orderEdge{}
-	for _, e := range la.order {
+	// the must-hold analysis drops a lock that is taken on one branch only (`if dp { defer LockDpPool(..)() }`); for the ORDER
+	// of acquisitions a lock that MAY be held counts: inside one function, an acquisition that reaches another one without
+	// passing an explicit release of the first lock is an edge as well
+	order := append([]orderEdge{}, la.order...)
+	for _, fn := range c.SrcFns {
+		fi := la.info[fn]
+		if fi == nil || isGenerated(fn) {
+			continue
+		}
+		type acqSite struct {
+			at   *ssa.Call
+			lock string
+		}
+		var acqs []acqSite
+		rels := map[string][]ssa.Instruction{}
+		allInstrs(fn, func(in ssa.Instruction) {
+			ci, ok := in.(ssa.CallInstruction)
+			if !ok {
+				return
+			}
+			if op, ok := classifyLockCall(ci); ok {
+				if _, isDefer := in.(*ssa.Defer); op.kind == "rel" && !isDefer {
+					rels[op.lock] = append(rels[op.lock], in)
+				}
+				if call, isCall := in.(*ssa.Call); op.kind == "acq" && isCall {
+					acqs = append(acqs, acqSite{call, op.lock})
+				}
+				return
+			}
+			if call, isCall := in.(*ssa.Call); isCall {
+				for _, g := range fi.callees[in] {
+					if gi := la.info[g]; gi != nil && gi.wrapper != "" {
+						acqs = append(acqs, acqSite{call, gi.wrapper})
+					}
+				}
+			}
+		})
+		if len(acqs) < 2 {
+			continue
+		}
+		for _, a := range acqs {
+			r := c.reachAfter(a.at, newCut().instr(rels[a.lock]...))
+			for _, b := range acqs {
+				if b.at != a.at && b.lock != a.lock && r.has(b.at) {
+					order = append(order, orderEdge{a: a.lock, b: b.lock, at: b.at, fn: fn, via: "acquired on a path on which " + a.lock + " may still be held"})
+				}
+			}
+		}
+	}
+	for _, e := range order {
 		if adj[e.a] == nil {
 			adj[e.a] = map[string]orderEdge{}
 		}
